@@ -153,16 +153,17 @@ func (w *World) keyFor(sa *SA, role string, obj string, spy bool) (*security.IKE
 }
 
 type sendCtx struct {
-	w        *World
-	s        *Step
-	sa       *SA
-	msg      *message.IKEMessage
-	key      *security.IKESAKey
-	out      []byte
-	res      *callResult
-	orig     message.IKEPayloadContainer // payload objects as built (kept by the harness)
-	retried  bool
-	firstErr error
+	w          *World
+	s          *Step
+	sa         *SA
+	msg        *message.IKEMessage
+	key        *security.IKESAKey
+	out        []byte
+	res        *callResult
+	orig       message.IKEPayloadContainer // payload objects as built (kept by the harness)
+	retried    bool
+	firstErr   error
+	callerList message.IKEPayloadContainer
 }
 
 var sendHooks = map[string]func(c *sendCtx){}
@@ -186,6 +187,7 @@ func opSend(w *World, s *Step) (string, string) {
 	}
 	c := &sendCtx{w: w, s: s, sa: sa, msg: msg}
 	c.orig = append(c.orig, msg.Payloads...)
+	c.callerList = msg.Payloads // the very slice the caller handed to NewMessage and keeps
 	if !s.NilKey {
 		c.key, err = w.keyFor(sa, s.From, s.Obj, false)
 		if err != nil {
